@@ -317,6 +317,7 @@ static struct base_node *node_next(struct base_node *n, struct base_list *t) {
     size_t r = PREVMATCH(i); return r == NONE ? &t->head : &NB[r];
 #endif
 }
+static struct base_list temp;   /* file-scope fallback for functions that have no local list `temp` (shadowed by the local where there is one): a forward link followed there fails node_next's obligations instead of the compilation */
 #define NODE_NEXT(n) node_next((n), &temp)
 static struct base_node *NODE_PREV(struct base_node *n) {
     OBLIGATION(g_hold && !g_flushed, "C02.monitor: the wait set is walked only under its mutex");
